@@ -137,10 +137,15 @@ func (r *renamer) name(s string) string {
 }
 
 func isTerm(b *ast.BlockStmt) bool {
-	if b == nil || len(b.List) != 1 {
+	return b != nil && isTermList(b.List)
+}
+
+// isTermList: a statement list that is exactly one error exit (`return …` or `panic(…)`)
+func isTermList(l []ast.Stmt) bool {
+	if len(l) != 1 {
 		return false
 	}
-	switch s := b.List[0].(type) {
+	switch s := l[0].(type) {
 	case *ast.ReturnStmt:
 		return true
 	case *ast.ExprStmt:
@@ -256,6 +261,34 @@ func canon(fset *token.FileSet, n ast.Node, r *renamer) string {
 		s += " " + c(n.Cond) + " " + c(n.Body)
 		if n.Else != nil {
 			s += " else " + c(n.Else)
+		}
+		return s + ")"
+	case *ast.SwitchStmt:
+		s := "(switch"
+		if n.Init != nil {
+			s += " init:" + c(n.Init)
+		}
+		if n.Tag != nil {
+			s += " tag:" + c(n.Tag)
+		}
+		for _, cl := range n.Body.List {
+			s += " " + c(cl)
+		}
+		return s + ")"
+	case *ast.CaseClause:
+		s := "(case"
+		if n.List == nil {
+			s += " default"
+		}
+		for _, e := range n.List {
+			s += " " + c(e)
+		}
+		s += " =>"
+		if isTermList(n.Body) {
+			return s + " TERM)"
+		}
+		for _, st := range n.Body {
+			s += " " + c(st)
 		}
 		return s + ")"
 	case *ast.ExprStmt:
@@ -567,6 +600,7 @@ type scanResult struct {
 	sites      []*site
 	strays     []string // x & 0x7f outside a site
 	plainCalls []string // protowire.ConsumeVarint outside a site
+	ladders    []string // varint-skip ladder switches outside a recognised skip site
 	files      int
 }
 
@@ -608,6 +642,14 @@ func scan(dir string) (*scanResult, error) {
 			parent := stack[len(stack)-2]
 			if p, ok := parent.(*ast.IfStmt); ok && p.Else == n {
 				return true // not a chain head
+			}
+			if sk := skipSite(ifs); sk != nil { // impl.Validate's varint-skip ladder (skip.go)
+				sk.file, sk.fset, sk.src = name, fset, src
+				sk.pos = fmt.Sprintf("%s:%d", name, sk.line())
+				sk.checkSkip()
+				covered = append(covered, rng{ifs.Pos(), ifs.End()})
+				res.sites = append(res.sites, sk)
+				return true
 			}
 			c := flatten(ifs)
 			if c.els == nil || !contains(c.els, isConsumeVarint) {
@@ -696,6 +738,9 @@ func scan(dir string) (*scanResult, error) {
 			if isConsumeVarint(n) && !in(n.Pos()) {
 				res.plainCalls = append(res.plainCalls, fmt.Sprintf("%s:%d", name, fset.Position(n.Pos()).Line))
 			}
+			if sw, ok := n.(*ast.SwitchStmt); ok && isLadderSwitch(sw) && !in(n.Pos()) {
+				res.ladders = append(res.ladders, fmt.Sprintf("%s:%d", name, fset.Position(n.Pos()).Line))
+			}
 			return true
 		})
 	}
@@ -725,6 +770,10 @@ func textOf(fset *token.FileSet, src []byte, l []ast.Stmt, repl string) string {
 		ast.Inspect(st, func(n ast.Node) bool {
 			if b, ok := n.(*ast.BlockStmt); ok && isTerm(b) {
 				edits = append(edits, edit{fset.Position(b.List[0].Pos()).Offset, fset.Position(b.List[0].End()).Offset, repl})
+				return false
+			}
+			if cc, ok := n.(*ast.CaseClause); ok && isTermList(cc.Body) {
+				edits = append(edits, edit{fset.Position(cc.Body[0].Pos()).Offset, fset.Position(cc.Body[0].End()).Offset, repl})
 				return false
 			}
 			return true
@@ -803,6 +852,16 @@ func build(res *scanResult) []synth {
 		}
 		out = append(out, sy)
 	}
+	if s := first["skipvarint"]; s != nil {
+		sy := synth{name: "implValidateSkipVarint", from: s.pos}
+		if s.sliceVar == "" {
+			sy.err = "cannot identify the slice variable"
+		} else {
+			sy.code = fmt.Sprintf("// text of %s; the error exit is replaced by `return nil, false`\nfunc implValidateSkipVarint(%s []byte) ([]byte, bool) {\n\t%s\n\treturn %s, true\n}\n",
+				s.pos, s.sliceVar, textOf(s.fset, s.src, s.stmts, "return nil, false"), s.sliceVar)
+		}
+		out = append(out, sy)
+	}
 	if s := firstSplit["checked"]; s != nil {
 		sy := synth{name: "implTagSplit", from: s.pos}
 		l := s.after[:s.splitLen]
@@ -863,7 +922,7 @@ func main() {
 		sites []string
 		bad   []string
 	}
-	shapes := map[string]*agg{"varint": {}, "tag": {}, "size": {}, "tagsplit": {}, "tagsplit-unchecked": {}}
+	shapes := map[string]*agg{"varint": {}, "tag": {}, "size": {}, "tagsplit": {}, "tagsplit-unchecked": {}, "skipvarint": {}}
 	for _, s := range res.sites {
 		a := shapes[s.kind]
 		if a == nil {
@@ -892,7 +951,7 @@ func main() {
 			}
 		}
 	}
-	canonText := map[string]string{"varint": cVarint, "tag": cTag, "size": cSize, "tagsplit": cSplitChecked, "tagsplit-unchecked": cSplitUnchecked}
+	canonText := map[string]string{"varint": cVarint, "tag": cTag, "size": cSize, "tagsplit": cSplitChecked, "tagsplit-unchecked": cSplitUnchecked, "skipvarint": cSkip}
 	for k, a := range shapes {
 		h := sha256.Sum256([]byte(canonText[k]))
 		e := entry{"count": strconv.Itoa(len(a.sites)), "sites": strings.Join(a.sites, " "), "hash": fmt.Sprintf("%x", h[:8]),
@@ -910,8 +969,34 @@ func main() {
 	for _, p := range res.strays {
 		man["stray:"+p] = entry{"status": "mismatch: `& 0x7f` at internal/impl/" + p + " is outside every recognised varint fast path"}
 	}
+	for _, p := range res.ladders {
+		man["strayladder:"+p] = entry{"status": "mismatch: `switch { case b[k] < 0x80: b = b[k+1:] … }` at internal/impl/" + p + " is a varint-skip ladder outside the recognised `if len(b) >= 10 { switch } else { switch }` site"}
+	}
 	man["plaincalls"] = entry{"status": "ok", "count": strconv.Itoa(len(res.plainCalls)), "sites": strings.Join(res.plainCalls, " "),
 		"value": strings.Join(res.plainCalls, " ")}
+
+	// encoder side: no re-implementation of varint size/append outside protowire (encoders.go)
+	enc, err := scanEncoders(absRepo)
+	if err != nil {
+		fail(err.Error())
+	}
+	{
+		var calls []string
+		total := 0
+		for _, d := range encoderDirs {
+			calls = append(calls, fmt.Sprintf("%s=%d", d, enc.calls[d]))
+			total += enc.calls[d]
+		}
+		e := entry{"files": strconv.Itoa(enc.files), "dirs": strings.Join(encoderDirs, " "), "count": strconv.Itoa(len(enc.hits)),
+			"protowire_encoder_calls": strings.Join(calls, " "), "value": "inlined=" + strconv.Itoa(len(enc.hits)) + " protowire_calls=" + strconv.Itoa(total)}
+		if len(enc.hits) == 0 {
+			e["status"] = "ok"
+		} else {
+			e["status"] = "mismatch: " + strconv.Itoa(len(enc.hits)) + " varint-encoder-like fragment(s) outside encoding/protowire (not translated, not proved equal to protowire.SizeVarint/AppendVarint): " + strings.Join(enc.hits, "; ")
+		}
+		man["noInlinedVarintEncoders"] = e
+	}
+	facts := leanFacts(enc)
 
 	// synthetic package
 	syn := build(res)
@@ -946,9 +1031,8 @@ func main() {
 	args := []string{"-dir", tmp, "-pkg", "implfasttmp/implfast", "-ns", "Gen.ImplFast",
 		"-imports", "PbVerif.Gen.Prelude,PbVerif.Gen.Wire", "-ext", "protowire.ConsumeVarint=Gen.Wire.consumeVarint:partial",
 		"-header", "/verif/go/gen-implfast (text of internal/impl fast paths)", "-manifest", tman}
-	if *out != "" {
-		args = append(args, "-o", *out)
-	}
+	tout := filepath.Join(tmp, "ImplFast.lean")
+	args = append(args, "-o", tout)
 	args = append(args, names...)
 	g2lAbs, _ := filepath.Abs(*g2l)
 	cmd := exec.Command(g2lAbs, args...)
@@ -966,16 +1050,23 @@ func main() {
 			}
 		}
 		// leave a Lean file that cannot satisfy the theorems
-		if *out != "" {
-			os.WriteFile(*out, []byte("-- GENERATED by /verif/go/gen-implfast: translation FAILED, see manifest\nimport PbVerif.Gen.Prelude\nimport PbVerif.Gen.Wire\nnamespace Gen.ImplFast\nend Gen.ImplFast\n"), 0644)
-		}
+		writeOut(*out, "-- GENERATED by /verif/go/gen-implfast: translation FAILED, see manifest\nimport PbVerif.Gen.Prelude\nimport PbVerif.Gen.Wire\nnamespace Gen.ImplFast\n"+facts+"\nend Gen.ImplFast\n")
 		writeManifest(*manifest, man)
 		fmt.Fprintln(os.Stderr, "gen-implfast: go2lean failed:", o)
 		return
 	}
-	if *out == "" {
-		os.Stdout.Write(cout.Bytes())
+	lean, err := os.ReadFile(tout)
+	if err != nil {
+		fail("go2lean wrote no output: " + err.Error())
 	}
+	const endMark = "\nend Gen.ImplFast\n"
+	ls := string(lean)
+	if i := strings.LastIndex(ls, endMark); i >= 0 {
+		ls = ls[:i] + "\n-- facts of the scanner (not translated code)\n" + facts + ls[i:]
+	} else {
+		fail("unexpected go2lean output (no namespace end)")
+	}
+	writeOut(*out, ls)
 	var tm map[string]map[string]string
 	if b, err := os.ReadFile(tman); err == nil {
 		json.Unmarshal(b, &tm)
@@ -996,12 +1087,27 @@ func main() {
 		}
 		man["translate:"+s.name] = e
 	}
-	for _, want := range []string{"implFastVarint", "implFastTag", "implFastSize", "implTagSplit", "implTagSplitUnchecked"} {
+	for _, want := range []string{"implFastVarint", "implFastTag", "implFastSize", "implTagSplit", "implTagSplitUnchecked", "implValidateSkipVarint"} {
 		if _, ok := man["translate:"+want]; !ok {
 			man["translate:"+want] = entry{"status": "missing: no occurrence to translate"}
 		}
 	}
 	writeManifest(*manifest, man)
+}
+
+// writeOut writes the Lean file only when its content changed (keeps lake's build cache valid)
+func writeOut(path, content string) {
+	if path == "" {
+		os.Stdout.WriteString(content)
+		return
+	}
+	if old, err := os.ReadFile(path); err == nil && string(old) == content {
+		return
+	}
+	if err := os.WriteFile(path, []byte(content), 0644); err != nil {
+		fmt.Fprintln(os.Stderr, err)
+		os.Exit(2)
+	}
 }
 
 func writeManifest(path string, man map[string]entry) {
